@@ -36,6 +36,9 @@ def sites(g, e):
         catchbody=lambda: [T(('try', [T(N(1)), ('throw', N(5)), T(N(2))], [T(N(3)), e, T(N(4))])), T(N(9))],
         lazy=lambda: [T(('lazy', 'and', TRUE, [T(N(1)), e, TRUE])), T(N(9))],
         spawn=lambda: [T(N(1)), ('spawn', ('arr', []), [T(N(2)), e, T(N(3))]), T(N(4))],
+        # the error is raised by code entered through exitWith: with a handler around the body, the frame that exitWith kills IS the handler frame
+        exitwith=lambda: [T(N(1)), ('exitwith', TRUE, [T(N(2)), e, T(N(3))]), T(N(4))],
+        exitwithcall=lambda: [T(N(1)), ('exitwith', g.hb(), [T(N(2)), ('call', None, ('code', [T(N(5)), e, T(N(6))])), T(N(3))]), T(N(4))],
     )
     return d
 
@@ -127,7 +130,7 @@ def run(ctx):
         return dict(kind='vm', op='runs', runs=runs)
     funcs = sorted(n for n in h.m.DEFINED if ('runtime7runtime' in n or 'ops_sqfvm' in n or 'frame' in n) and len(n) < 120)
     r = oblig.run('err.hist', [(cid, history_case(h, ps)) for cid, ps in progs.items()], ctx, funcs,
-                  '%d histories: one of %d erroring operations injected at %d position classes x %d handler arrangements, each followed by a clean run on the same VM; two 4-run histories' % (len(progs), 4 if ctx['tier'] == 'thorough' else 2, 22, len(HK)),
+                  '%d histories: one of %d erroring operations injected at %d position classes x %d handler arrangements, each followed by a clean run on the same VM; two 4-run histories' % (len(progs), 4 if ctx['tier'] == 'thorough' else 2, 24, len(HK)),
                   assumptions=['allocation failure is out of scope', 'reference semantics: lib/sqfref.py', 'after a run that returned runtime_error the harness calls execute(abort), as the CLI and the C API do'],
                   case_timeout=600, keyfn=key, replayfn=rep, step_limit=30_000_000,
                   sample_fn=lambda rr: dict(history=rr.get('text', '')[:300], path_condition=rr.get('pc', [])[:3]) if rr.get('text') else None)
